@@ -7,6 +7,6 @@ declare -A REL=( [C01]="C01 C08 C19 C18" [C08]="C08 C01 C19" [C02]="C02 C03 C04 
   [C05]="C05 C06 C18 C19" [C06]="C06 C07 C05 C10" [C09]="C09 C15 C17" [C10]="C10 C16 C07 C09" [C11]="C11 C12 C14" [C12]="C12 C11 C14 C13" [C13]="C13 C14 C12"
   [C14]="C14 C11 C13" [C15]="C15 C17 C09" [C17]="C17 C15 C09 C04" [C16]="C16 C10 C15" [C18]="C18 C05 C19 C04" [C19]="C19 C08 C03 C18" [C20]="C20 C03 C06" )
 for d in benign/${1:-*}.diff; do
-  n=$(basename $d .diff); p=${n:4:3}
+  n=$(basename $d .diff); p=$(echo $n | grep -oE "C[0-9][0-9]" | head -1)
   echo "$n: $(tools/try_patch.sh $d ${REL[$p]} | grep -oE '^C[0-9][0-9] rc=[0-9]+' | tr '\n' ' ')"
 done
